@@ -54,8 +54,9 @@ def key_records(fams: dict[str, dict[int, dict]], kinds: dict[str, dict],
                 rec = {"id": fid if not by_export else f"{fid}#{len(by_export)}",
                        "rel": "keys", "kind": r["kind"], "ctx": r["ctx"],
                        "names": r["names"], "nodes": r["nodes"], "roots": r["roots"],
-                       "canonM": c04._pad_identity(k["canon"], len(r["names"])),
-                       "strictM": c04._pad_identity(k["strict"], len(r["names"])), "obs": [],
+                       "canonM": c04._pad_identity(k["canon"], len(r["names"]), r["names"]),
+                       "strictM": c04._pad_identity(k["strict"], len(r["names"]),
+                                                    r["names"]), "obs": [],
                        "seeds": [], "errors": []}
                 by_export[sig] = rec
             key = ["error" if x.startswith("error") else x for x in r["key"]]
